@@ -2,4 +2,4 @@
 From GV Require Export Common.Outcome C10.YpModel C10.YpSpec C10.YpPrint C10.YpRoundSpec C10.YpRoundSpansSpec
   C10.YpRoundAction C10.YpRoundLex C10.YpRoundDeclSimple C10.YpRoundDeclToken C10.YpRoundDeclLines
   C10.YpRoundDeclEol C10.YpRoundDeclEu C10.YpRoundDeclImplicit C10.YpRoundDeclInv
-  C10.YpRoundValid C10.YpRoundFaithful C10.YpRoundSpans C10.YpRoundExample C10.YpRound.
+  C10.YpRoundValid C10.YpRoundFaithful C10.YpRoundSpans C10.YpRoundExample C10.YpRound C10.YpRoundPspan C10.YpRoundFindings.
